@@ -59,6 +59,11 @@ def floors(tier):
     return {'calls': 20000, 'len:dialect_names': 7, 'fallback_taken': 300, 'unsupported_off': 300, 'len:statement_classes': 30}
 
 
+def ceilings(tier):
+    # fractions of all evaluations; the unchanged tree stays below about two thirds of each
+    return {'unsupported_off': 0.42}
+
+
 def contract(render, tree, method, failback):
     """Run one call under the contract.  Returns (outcome, sig, detail)."""
     from sqlalchemy.exc import SQLAlchemyError
